@@ -628,6 +628,8 @@ def case_imap(p):
         except (IndexError, ValueError, TypeError, AttributeError, AssertionError, NotImplementedError, RuntimeError) as e:
             log.append(type(e).__name__)
     r = dict(cls=prov(m), obs=observe(m), routes=routes_for(m), oplog=log)
+    if type(m).__name__ == "FeatureMap":
+        r["enc"] = _route(lambda: enc_generic(m))
     if type(m).__name__ == "IndelMap":
         rd = m.to_rich_dict()
         r["enc"] = dict(map=[num(m.gap_pos), num(m.cum_gap_lengths), int(m.parent_length)], dict_map=[rd["gap_pos"], rd["cum_gap_lengths"], rd["parent_length"]],
@@ -864,6 +866,10 @@ def case_darr(p):
         from cogent3.evolve.fast_distance import DistanceMatrix
 
         t = DistanceMatrix({tuple(k): v for k, v in p["dists"]}, invalid=p.get("invalid"))
+    elif p["kind"] == "dmat_array":
+        from cogent3.evolve.fast_distance import DistanceMatrix
+
+        t = DistanceMatrix.from_array_names(numpy.array(p["array"], dtype=float), p["names"])
     elif p["kind"] == "dmat_aln":
         from cogent3 import make_aligned_seqs
 
@@ -916,6 +922,8 @@ def case_darr(p):
     r = dict(cls=prov(t), obs=observe(t), routes=routes_for(t), oplog=log)
     if type(t).__name__ == "DictArray":
         r["enc"] = _route(lambda: enc_generic(t))
+    elif type(t).__name__ == "DistanceMatrix":
+        r["enc"] = _route(lambda: dict(enc_generic(t), names=[str(n) for n in t.names], array=json.loads(json.dumps(t.array.tolist())), invalid=t._invalid))
     return r
 
 
@@ -990,7 +998,10 @@ def case_alpha(p):
         from cogent3.core.new_genetic_code import get_code
 
         x = get_code(p["gc"])
-    return dict(cls=prov(x), obs=observe(x), routes=routes_for(x), oplog=[])
+    r = dict(cls=prov(x), obs=observe(x), routes=routes_for(x), oplog=[])
+    if k == "old_moltype":
+        r["enc"] = _route(lambda: enc_generic(x))
+    return r
 
 
 def case_sm(p):
@@ -1229,7 +1240,10 @@ def case_db(p):
                 log.append(True)
             except Exception as e:  # noqa: BLE001
                 log.append(type(e).__name__)
-        return dict(cls=prov(db), obs=observe(db), routes=routes_for(db), oplog=log)
+        r = dict(cls=prov(db), obs=observe(db), routes=routes_for(db), oplog=log)
+        if type(db).__name__ == "BasicAnnotationDb":
+            r["enc"] = _route(lambda: enc_generic(db))
+        return r
 
 
 def case_seq_db(p):
@@ -1239,7 +1253,10 @@ def case_seq_db(p):
         s.add_feature(biotype=f["biotype"], name=f["name"], spans=[tuple(x) for x in f["spans"]], **({"strand": f["strand"]} if f.get("strand") else {}))
     log = []
     s = apply_seq_ops(s, p.get("ops", []), log)
-    return dict(cls=prov(s), obs=observe(s), routes=routes_for(s), oplog=log)
+    r = dict(cls=prov(s), obs=observe(s), routes=routes_for(s), oplog=log)
+    if type(s.annotation_db).__name__ == "BasicAnnotationDb":
+        r["enc"] = _route(lambda: dict(enc_generic(s), view=obs_view(s._seq), parent=str(s._seq.seq)))
+    return r
 
 
 def _import_all():
